@@ -83,7 +83,7 @@ class TlcResult:
 
 
 def run_tlc(module, cfg, env=None, workers=1, timeout=1800, mode="bfs", seed=None, simulate=None,
-            heap="4g", deque=False, tag="tlc"):
+            heap="4g", deque=False, tag="tlc", allow_stuck=False):
     """Run TLC on spec/<module>.tla with spec/<cfg>; returns TlcResult.
     PrintT("KEY {json}") lines are collected in .lines as (KEY, obj)."""
     build_java()
@@ -150,7 +150,16 @@ def run_tlc(module, cfg, env=None, workers=1, timeout=1800, mode="bfs", seed=Non
     log(f"[tlc] {module}/{cfg} {env or ''} -> rc={p.returncode} gen={res.generated} "
         f"distinct={res.distinct} payload={len(res.lines)} ({res.wall:.1f}s)")
     if not res.ok:
-        raise ToolError(f"TLC failed on {module} ({cfg}):\n{res.raw_tail}")
+        # a trace validator that cannot take its next step: the recorded event has a shape the specification does not admit
+        # (a missing field, an outcome of an unknown form).  That is a rejection of the trace at that event, not a tool error.
+        stuck = None
+        if allow_stuck and "The error occurred when TLC was evaluating the nested" in txt:
+            ms = re.findall(r"^/\\ l = (\d+)\s*$", txt, flags=re.M)
+            if ms:
+                stuck = int(ms[-1])
+        if stuck is None:
+            raise ToolError(f"TLC failed on {module} ({cfg}):\n{res.raw_tail}")
+        res.stuck_at = stuck
     return res
 
 
@@ -258,8 +267,26 @@ def validate_trace(st, prop, trace_path, tag):
     env["TRACE"] = trace_path
     env["PROP"] = prop
     r = run_tlc(st.trace[0], st.trace[1], env=env, workers=1, deque=True,
-                timeout=st.trace_timeout, tag=tag)
+                timeout=st.trace_timeout, tag=tag, allow_stuck=True)
     res = {"states": r.distinct, "transitions": r.generated, "bads": [], "cov": None, "info": []}
+    stuck = getattr(r, "stuck_at", None)
+    if stuck is not None:
+        # the id of the event at position l of this trace file
+        ev_id = None
+        with open(trace_path) as f:
+            for i, line in enumerate(f, 1):
+                if i == stuck:
+                    try:
+                        ev_id = json.loads(line).get("id")
+                    except Exception:
+                        pass
+                    break
+        log(f"[stuck] {st.trace[0]} cannot evaluate event {ev_id} (position {stuck}) of {os.path.basename(trace_path)}")
+        res["bads"] = [v for k, v in r.lines if k == "BAD"]
+        if ev_id is not None:
+            res["bads"].append({"id": ev_id, "failed": [prop + ".event_not_admitted_by_the_specification"]})
+            res["cov"] = {"events": stuck, "bad": len(res["bads"]), "cov": {}}
+            return res
     for k, v in r.lines:
         if k == "COV":
             res["cov"] = v
@@ -422,7 +449,9 @@ def run_stage(st, prop, tier, seed, out, replay=None):
                     cids.append(m.get("cid"))
             grp = [cases_by_cid[c] for c in cids if c in cases_by_cid]
             out.bad.append((st.name, ev, failed, grp))
-    if replay is None:
+    # (a stage in which events were rejected has established a violation: coverage that depends on the behaviour of the code
+    # under test - e.g. "subnormal data accepted" - must not turn it into a tool error)
+    if replay is None and not any(b[0] == st.name for b in out.bad):
         missing = [c for c in st.required if out.cov.get(c, 0) == 0]
         if missing:
             raise ToolError(f"vacuity guard: clauses never exercised in stage {st.name}: {missing}")
